@@ -68,6 +68,7 @@ func (p *MultilineAction) Do(event *pipeline.Event) pipeline.ActionResult {
 	if event.IsTimeoutKind() {
 		p.logger.Errorf("can't read next sequential event for k8s pod stream")
 		p.resetLogBuf()
+		p.skipNextEvent = false
 		return pipeline.ActionDiscard
 	}
 
